@@ -411,6 +411,19 @@ def run_special(tier, r):
         ("focusedseq-exprsel", C.FocusedSeq(this._params.name, "n0" / C.Const(b"\x01"), "n1" / C.Byte, "n2" / C.Default(C.Byte, 9)), [b"\x01\x05\x06", b"\x02\x05\x06"], [5, 0, None]),
         ("focusedseq-exprsel-nested", C.Struct("sel" / C.Enum(C.Byte, n1=1, n2=2), "f" / C.FocusedSeq(this._.sel, "n1" / C.Default(C.Byte, 7), "n2" / C.Default(C.Int16ub, 8))), [b"\x01\x05\x00\x06", b"\x02\x05\x00\x06"],
          [dict(sel="n1", f=3), dict(sel="n2", f=3), dict(sel="n2", f=None)]),
+        # StopIf reached through wrappers that do not catch the stop themselves
+        ("stopif-in-if", C.Struct("a" / C.Byte, C.If(this.a == 1, C.StopIf(True)), "b" / C.Byte), [b"\x01\x02", b"\x00\x02", b"\x01"], [dict(a=1), dict(a=1, b=2), dict(a=0, b=2)]),
+        ("stopif-in-ifthenelse", C.Struct("a" / C.Byte, "x" / C.IfThenElse(this.a == 1, C.StopIf(True), C.Pass), "b" / C.Byte), [b"\x01\x02", b"\x00\x02", b"\x01"], [dict(a=1), dict(a=0, b=2)]),
+        ("stopif-in-switch", C.Struct("a" / C.Byte, C.Switch(this.a, {1: C.StopIf(True), 2: C.StopIf(this.a > 5)}, default=C.Pass), "b" / C.Byte), [b"\x01\x02", b"\x02\x02", b"\x00\x02", b"\x01"],
+         [dict(a=1), dict(a=2, b=3), dict(a=0, b=2)]),
+        ("stopif-in-sequence", C.Sequence(C.Byte, C.If(this._params.flag, C.StopIf(True)), C.Byte), [b"\x01\x02", b"\x01"], [[1, None, 2], [1]]),
+        ("stopif-nested-struct", C.Struct("a" / C.Byte, "s" / C.Struct(C.If(this._.a == 1, C.StopIf(True)), "c" / C.Byte), "b" / C.Byte), [b"\x01\x02\x03", b"\x00\x02\x03", b"\x01\x02"],
+         [dict(a=1, s=dict(), b=3), dict(a=0, s=dict(c=2), b=3)]),
+        ("stopif-in-array-element", C.Array(2, C.Struct("a" / C.Byte, C.If(this.a == 1, C.StopIf(True)), "b" / C.Byte)), [b"\x01\x00\x02", b"\x00\x02\x01", b"\x01\x01"],
+         [[dict(a=1), dict(a=0, b=2)], [dict(a=0, b=2), dict(a=1)]]),
+        ("stopif-in-focusedseq", C.Struct("a" / C.Byte, "f" / C.FocusedSeq("x", "x" / C.Byte, C.If(this._.a == 1, C.StopIf(True)), "y" / C.Byte), "b" / C.Byte), [b"\x01\x02\x03", b"\x00\x02\x03\x04"],
+         [dict(a=1, f=2, b=3), dict(a=0, f=2, b=3)]),
+        ("stopif-renamed-in-if", C.Struct("a" / C.Byte, "st" / C.If(this.a == 1, "inner" / C.StopIf(True)), "b" / C.Byte), [b"\x01\x02", b"\x00\x02"], [dict(a=1), dict(a=0, b=2)]),
         ("union", C.Union(0, "a" / C.Int16ub, "b" / C.Byte, "c" / C.Bytes(2)), [b"\x01\x02", b"\x01"], [dict(a=258), dict(b=1), dict(c=b"xy")]),
         ("union-none", C.Struct("u" / C.Union(None, "a" / C.Int16ub, "b" / C.Byte), "t" / C.Byte), [b"\x01\x02\x03"], [dict(u=dict(a=5), t=1)]),
         ("union-name", C.Struct("u" / C.Union("b", "a" / C.Int16ub, "b" / C.Byte), "t" / C.Byte), [b"\x01\x02\x03"], []),
